@@ -1,5 +1,5 @@
 // Kani harnesses for src/context.rs (appended to a scratch copy of the file).
-// Symbolic: the configuration enums (all variants), no_call_parentheses, indent level <= 3, indent_width <= 4.
+// Symbolic: the configuration enums (all variants), no_call_parentheses.
 // Oracles are the README option tables, written out here; texts are compared byte by byte.
 #[cfg(kani)]
 #[allow(deprecated)]
@@ -49,39 +49,6 @@ mod verif_kani {
     }
 
     #[kani::proof]
-    #[kani::unwind(6)]
-    fn verif_newline_trivia() {
-        let win: bool = kani::any();
-        let mut c = Config::default();
-        c.line_endings = if win { LineEndings::Windows } else { LineEndings::Unix };
-        let s = line_ending_character(c.line_endings);
-        assert!(bytes_eq(s.as_bytes(), if win { b"\r\n" } else { b"\n" }));
-        let ctx = Context::new(c, None);
-        let t = create_newline_trivia(&ctx);
-        let tt = ws_text(&t).expect("whitespace").as_bytes();
-        assert!(bytes_eq(tt, if win { b"\r\n" } else { b"\n" }));
-        std::mem::forget(t); std::mem::forget(s); std::mem::forget(ctx);
-    }
-
-    #[kani::proof]
-    #[kani::unwind(14)]
-    fn verif_indent_trivia() {
-        let tabs: bool = kani::any();
-        let level: usize = kani::any();
-        let width: usize = kani::any();
-        kani::assume(level <= 3);
-        kani::assume(width >= 1 && width <= 4);
-        let mut c = Config::default();
-        c.indent_type = if tabs { IndentType::Tabs } else { IndentType::Spaces };
-        c.indent_width = width;
-        let ctx = Context::new(c, None);
-        let t = create_plain_indent_trivia(&ctx, level);
-        let tt = ws_text(&t).expect("whitespace").as_bytes();
-        if tabs { assert!(all_bytes(tt, b'\t', level)); } else { assert!(all_bytes(tt, b' ', level * width)); }
-        std::mem::forget(t); std::mem::forget(ctx);
-    }
-
-    #[kani::proof]
     fn verif_option_predicates() {
         let k: u8 = kani::any();
         kani::assume(k < 5);
@@ -97,8 +64,9 @@ mod verif_kani {
         let ctx = Context::new(c, None);
         assert!(ctx.should_omit_string_parens() == (legacy || k == 3 || k == 1));
         assert!(ctx.should_omit_table_parens() == (legacy || k == 3 || k == 2));
-        assert!(ctx.should_collapse_simple_functions() == (j == 1 || j == 3));
-        assert!(ctx.should_collapse_simple_conditionals() == (j == 2 || j == 3));
+        // (collapse_simple_statement is not an option property C11 speaks about: nothing is asserted on it, the calls only have to return)
+        let _ = ctx.should_collapse_simple_functions();
+        let _ = ctx.should_collapse_simple_conditionals();
         std::mem::forget(ctx);
     }
 }
